@@ -36,6 +36,10 @@ checks = {
   "Enumerates hyperslab selections (start/count/stride/block per axis, ranks 1-3, contiguous/compact/chunked/filtered, chunk shapes that do not divide the extents) and ReadSlice calls against datasets with position-encoding values, computes the expected elements from the coordinates alone and compares order and values; invalid selections (out of range, zero counts, overflowing arithmetic, block>stride) must be refused; the chunk iterator must tile the dataset exactly once.",
   "Selections are bounded by the small extents (<= 12 per axis) the generator uses; float64 is the reader's documented result type.",
   TECH + ": reference-model oracle (coordinate arithmetic) over real selection reads"),
+ "C12": ("exploration",
+  "Writes 1-3 variable-length datasets per file (vlen strings and six sequence base types, contiguous/chunked, up to 10^4 elements, element lengths 0, small, around the 4 KiB collection capacity, >64 KiB, with NUL and multi-byte bytes, interleaved writers) and, after reopen, compares class/base type and every element decoded by an independent decoder through the global heap with the written bytes; every global heap collection reached is checked for declared size, object sizes, alignment, free-space object and overlap; values returned by the library's own readers must equal the written ones.",
+  "The library has no reader for variable-length datasets (its error is an accepted answer), so the element oracle is the independent decoder.",
+  TECH + ": independent decoder as observer of vlen write executions + structural invariant checks of every collection"),
  "C13": ("exploration",
   "Creates resizable chunked datasets (rank 1-3, dividing and non-dividing chunks, fixed/unlimited maxima, plain or filtered, superblock 0/2/3), applies 1-10 grow/shrink/rewrite/beyond-maximum steps in four patterns while an N-d array model is resized with the same calls; acceptance of every step is compared with the declared maximum and, after Close and reopen, shape and every element with the model (retained, zero-filled, nothing resurrected).",
   "Written values are never zero so a zero always means unwritten; extents <= 40 per axis.",
